@@ -1950,26 +1950,26 @@ func (*entryValueMap).tryExpungeLocked
 
 func (*ValueMap).missLocked
   props C12
-  requires vmWF(m) && m.dirty != nil && vmA(m)
+  holds vmWF(m)
+  requires m.dirty != nil && vmA(m)
   assigns ValueMap.read ValueMap.dirty ValueMap.misses
-  ensures vmWF(m)
   ensures (sameMap(vmR(m), old(m.dirty)) && m.dirty == nil && !vmA(m)) || (sameMap(vmR(m), old(vmR(m))) && sameMap(m.dirty, old(m.dirty)) && vmA(m))
   ensures forallkey k: vmHas(m, k) == old(vmHas(m, k)) && (vmHas(m, k) ==> vmGet(m, k) == old(vmGet(m, k)))
 
 func (*ValueMap).Load
   props C12
-  requires vmWF(m)
+  holds vmWF(m)
   assigns ValueMap.read ValueMap.dirty ValueMap.misses
-  ensures vmWF(m)
   ensures ok == old(vmHas(m, key)) && (ok ==> value == old(vmGet(m, key))) && (!ok ==> value == nil)
   ensures forallkey k: vmHas(m, k) == old(vmHas(m, k)) && (vmHas(m, k) ==> vmGet(m, k) == old(vmGet(m, k)))
 
 // dirtyLocked builds the dirty table from the live read entries (deleted ones become expunged) when there is none.
 func (*ValueMap).dirtyLocked
   props C12
-  requires vmWF(m) && !vmA(m)
+  holds vmWF(m)
+  requires !vmA(m)
   assigns ValueMap.dirty entryValueMap.p map.map[string]*entryValueMap
-  ensures vmWF(m) && m.dirty != nil && vmA(m) == old(vmA(m)) && sameMap(vmR(m), old(vmR(m)))
+  ensures m.dirty != nil && vmA(m) == old(vmA(m)) && sameMap(vmR(m), old(vmR(m)))
   ensures old(m.dirty) != nil ==> sameMap(m.dirty, old(m.dirty))
   ensures forallkey k: vmHas(m, k) == old(vmHas(m, k)) && (vmHas(m, k) ==> vmGet(m, k) == old(vmGet(m, k)))
   ensures forallkey k: mapHas(vmR(m), k) == old(mapHas(vmR(m), k))
@@ -1986,17 +1986,15 @@ func (*ValueMap).dirtyLocked
 // The public operations against the abstract map: Store sets one key and leaves the others alone, Load reads, ...
 func (*ValueMap).Store
   props C12
-  requires vmWF(m)
+  holds vmWF(m)
   assigns ValueMap.read ValueMap.dirty ValueMap.misses entryValueMap.p map.map[string]*entryValueMap
-  ensures vmWF(m)
   ensures vmHas(m, key) && vmGet(m, key) == value
   ensures forallkey k: k != key ==> vmHas(m, k) == old(vmHas(m, k)) && (vmHas(m, k) ==> vmGet(m, k) == old(vmGet(m, k)))
 
 func (*ValueMap).LoadOrStore
   props C12
-  requires vmWF(m)
+  holds vmWF(m)
   assigns ValueMap.read ValueMap.dirty ValueMap.misses entryValueMap.p map.map[string]*entryValueMap
-  ensures vmWF(m)
   ensures loaded == old(vmHas(m, key))
   ensures loaded ==> actual == old(vmGet(m, key))
   ensures !loaded ==> actual == value
@@ -2005,33 +2003,29 @@ func (*ValueMap).LoadOrStore
 
 func (*ValueMap).LoadAndDelete
   props C12
-  requires vmWF(m)
+  holds vmWF(m)
   assigns ValueMap.read ValueMap.dirty ValueMap.misses entryValueMap.p map.map[string]*entryValueMap
-  ensures vmWF(m)
   ensures loaded == old(vmHas(m, key)) && (loaded ==> value == old(vmGet(m, key))) && (!loaded ==> value == nil)
   ensures !vmHas(m, key)
   ensures forallkey k: k != key ==> vmHas(m, k) == old(vmHas(m, k)) && (vmHas(m, k) ==> vmGet(m, k) == old(vmGet(m, k)))
 
 func (*ValueMap).Delete
   props C12
-  requires vmWF(m)
+  holds vmWF(m)
   assigns ValueMap.read ValueMap.dirty ValueMap.misses entryValueMap.p map.map[string]*entryValueMap
-  ensures vmWF(m)
   ensures !vmHas(m, key)
   ensures forallkey k: k != key ==> vmHas(m, k) == old(vmHas(m, k)) && (vmHas(m, k) ==> vmGet(m, k) == old(vmGet(m, k)))
 
 func (*ValueMap).Clear
   props C12
-  requires vmWF(m)
+  holds vmWF(m)
   assigns ValueMap.read ValueMap.dirty ValueMap.misses map.map[string]*entryValueMap
-  ensures vmWF(m)
   ensures forallkey k: !vmHas(m, k)
 
 func (*ValueMap).MustLoad
   props C12
-  requires vmWF(m)
+  holds vmWF(m)
   assigns ValueMap.read ValueMap.dirty ValueMap.misses
-  ensures vmWF(m)
   ensures old(vmHas(m, key)) ==> result == old(vmGet(m, key))
   ensures !old(vmHas(m, key)) ==> result == nil
   ensures forallkey k: vmHas(m, k) == old(vmHas(m, k)) && (vmHas(m, k) ==> vmGet(m, k) == old(vmGet(m, k)))
@@ -2040,11 +2034,53 @@ func (*ValueMap).MustLoad
 // without counting: the result is not negative and it is zero exactly when the map is empty (dict truthiness).
 func (*ValueMap).Length
   props C12 C02
-  requires vmWF(m)
+  holds vmWF(m)
   assigns nothing
   ensures result >= 0
   ensures (result == 0) == (forallkey k: !vmHas(m, k))
   loop 1
     invariant n >= 0 && (n == 0) == (forallkey k: rangeSeen(k) && mapHas(entries, k) ==> !vmSlotLive(entries[k].p))
   ghost at loop 1 begin: ghostAssume(n < 1<<62, "a counter of the keys visited so far does not overflow (a Go map holds fewer than 2^62 entries)")
+
+// Range calls f once for every live pair, with the value the map holds, and (unless f stops it) for all of them.
+// Assumed (callbacks-keep): f does not modify the map it is ranging over.
+func (*ValueMap).Range
+  props C12
+  holds vmWF(m)
+  requires f != nil
+  callbacks-keep ValueMap.read ValueMap.dirty ValueMap.misses entryValueMap.p map.map[string]*entryValueMap elem.*VMValue
+  ghost var stopped bool = false
+  ghost at precall 1 f: ghostAssert(vmHas(m, arg0) && arg1 == vmGet(m, arg0) && !rangeSeen(arg0))
+  ghost at call 1 f: stopped = !ret
+  ensures forallkey k: vmHas(m, k) == old(vmHas(m, k)) && (vmHas(m, k) ==> vmGet(m, k) == old(vmGet(m, k)))
+  goal !stopped ==> forallkey k: vmHas(m, k) ==> rangeSeen(k)
+  loop 1
+    invariant m != nil && !stopped
+    invariant sameMap(read.m, vmR(m))
+    invariant !vmA(m)
+    invariant vmWFRead(m)
+    invariant vmWFDirty(m)
+    invariant vmWFInj(m)
+    invariant forallkey k: vmHas(m, k) == old(vmHas(m, k)) && (vmHas(m, k) ==> vmGet(m, k) == old(vmGet(m, k)))
+
+func (*ValueMap).ToJSON
+  props C12 C09
+  holds vmWF(m)
+  ensures forallkey k: vmHas(m, k) == old(vmHas(m, k)) && (vmHas(m, k) ==> vmGet(m, k) == old(vmGet(m, k)))
+
+func (*ValueMap).UnmarshalJSON
+  props C12 C09 C10
+  holds vmWF(m)
+  loop 2
+    invariant m != nil && vmWF(m)
+@*/
+
+// The zero ValueMap is an empty, well-formed map (the base case of the object invariant clients rely on).
+func specZeroValueMap() *ValueMap { return &ValueMap{} }
+
+/*@
+func specZeroValueMap
+  props C12
+  ensures result != nil && vmWF(result)
+  ensures forallkey k: !vmHas(result, k)
 @*/
